@@ -971,6 +971,7 @@ pub trait IndexedParallelIterator: ParallelIterator {
     }
     fn collect_into_vec(self, target: &mut Vec<Self::Item>) {
         target.clear();
+        target.reserve(self.base_len());
         target.extend(execute(&self, None).into_ordered());
     }
     fn unzip_into_vecs<A, B>(self, left: &mut Vec<A>, right: &mut Vec<B>)
@@ -1298,6 +1299,9 @@ impl<'a, T: Sync> ParallelIterator for Chunks<'a, T> {
     fn base_len(&self) -> usize {
         self.s.len().div_ceil(self.size)
     }
+    fn opt_len(&self) -> Option<usize> {
+        Some(self.base_len())
+    }
     fn pull(&self, ctx: Ctx, i: usize, sink: &mut dyn FnMut(&'a [T])) {
         let a = i * self.size;
         let b = (a + self.size).min(self.s.len());
@@ -1464,6 +1468,9 @@ where
     fn base_len(&self) -> usize {
         self.base.base_len()
     }
+    fn opt_len(&self) -> Option<usize> {
+        self.base.opt_len()
+    }
     fn pull(&self, ctx: Ctx, i: usize, sink: &mut dyn FnMut(R)) {
         self.base.pull(ctx, i, &mut |x| sink((self.f)(x)))
     }
@@ -1492,6 +1499,9 @@ where
     type Item = R;
     fn base_len(&self) -> usize {
         self.base.base_len()
+    }
+    fn opt_len(&self) -> Option<usize> {
+        self.base.opt_len()
     }
     fn pull(&self, ctx: Ctx, i: usize, sink: &mut dyn FnMut(R)) {
         // one clone of `init` per job, reused for every item the job processes
@@ -1541,6 +1551,9 @@ where
     fn base_len(&self) -> usize {
         self.base.base_len()
     }
+    fn opt_len(&self) -> Option<usize> {
+        self.base.opt_len()
+    }
     fn pull(&self, ctx: Ctx, i: usize, sink: &mut dyn FnMut(R)) {
         let mut t = self.jobs.take(ctx).unwrap_or_else(|| (self.init)());
         self.base.pull(ctx, i, &mut |x| sink((self.f)(&mut t, x)));
@@ -1569,6 +1582,9 @@ where
     type Item = I::Item;
     fn base_len(&self) -> usize {
         self.base.base_len()
+    }
+    fn opt_len(&self) -> Option<usize> {
+        self.base.opt_len()
     }
     fn pull(&self, ctx: Ctx, i: usize, sink: &mut dyn FnMut(I::Item)) {
         self.base.pull(ctx, i, &mut |x| {
@@ -1688,6 +1704,9 @@ where
     fn base_len(&self) -> usize {
         self.base.base_len()
     }
+    fn opt_len(&self) -> Option<usize> {
+        self.base.opt_len()
+    }
     fn pull(&self, ctx: Ctx, i: usize, sink: &mut dyn FnMut(T)) {
         self.base.pull(ctx, i, &mut |x| sink(x.clone()))
     }
@@ -1710,6 +1729,9 @@ where
     type Item = T;
     fn base_len(&self) -> usize {
         self.base.base_len()
+    }
+    fn opt_len(&self) -> Option<usize> {
+        self.base.opt_len()
     }
     fn pull(&self, ctx: Ctx, i: usize, sink: &mut dyn FnMut(T)) {
         self.base.pull(ctx, i, &mut |x| sink(*x))
@@ -1734,6 +1756,12 @@ where
     type Item = A::Item;
     fn base_len(&self) -> usize {
         self.a.base_len().saturating_add(self.b.base_len())
+    }
+    fn opt_len(&self) -> Option<usize> {
+        match (self.a.opt_len(), self.b.opt_len()) {
+            (Some(x), Some(y)) => x.checked_add(y),
+            _ => None,
+        }
     }
     fn pull(&self, ctx: Ctx, i: usize, sink: &mut dyn FnMut(A::Item)) {
         let n = self.a.base_len();
@@ -1764,6 +1792,12 @@ where
     fn base_len(&self) -> usize {
         self.a.base_len().min(self.b.base_len())
     }
+    fn opt_len(&self) -> Option<usize> {
+        match (self.a.opt_len(), self.b.opt_len()) {
+            (Some(_), Some(_)) => Some(self.base_len()),
+            _ => None,
+        }
+    }
     fn pull(&self, ctx: Ctx, i: usize, sink: &mut dyn FnMut((A::Item, B::Item))) {
         let mut x = None;
         self.a.pull(ctx, i, &mut |v| x = Some(v));
@@ -1785,6 +1819,9 @@ impl<I: IndexedParallelIterator> ParallelIterator for Enumerate<I> {
     fn base_len(&self) -> usize {
         self.base.base_len()
     }
+    fn opt_len(&self) -> Option<usize> {
+        self.base.opt_len()
+    }
     fn pull(&self, ctx: Ctx, i: usize, sink: &mut dyn FnMut((usize, I::Item))) {
         self.base.pull(ctx, i, &mut |x| sink((i, x)))
     }
@@ -1798,6 +1835,9 @@ impl<I: IndexedParallelIterator> ParallelIterator for Rev<I> {
     type Item = I::Item;
     fn base_len(&self) -> usize {
         self.base.base_len()
+    }
+    fn opt_len(&self) -> Option<usize> {
+        self.base.opt_len()
     }
     fn pull(&self, ctx: Ctx, i: usize, sink: &mut dyn FnMut(I::Item)) {
         self.base.pull(ctx, self.base.base_len() - 1 - i, sink)
@@ -1814,6 +1854,9 @@ impl<I: IndexedParallelIterator> ParallelIterator for Skip<I> {
     fn base_len(&self) -> usize {
         self.base.base_len().saturating_sub(self.n)
     }
+    fn opt_len(&self) -> Option<usize> {
+        self.base.opt_len().map(|_| self.base_len())
+    }
     fn pull(&self, ctx: Ctx, i: usize, sink: &mut dyn FnMut(I::Item)) {
         self.base.pull(ctx, i + self.n, sink)
     }
@@ -1828,6 +1871,9 @@ impl<I: IndexedParallelIterator> ParallelIterator for Take<I> {
     type Item = I::Item;
     fn base_len(&self) -> usize {
         self.base.base_len().min(self.n)
+    }
+    fn opt_len(&self) -> Option<usize> {
+        self.base.opt_len().map(|_| self.base_len())
     }
     fn pull(&self, ctx: Ctx, i: usize, sink: &mut dyn FnMut(I::Item)) {
         self.base.pull(ctx, i, sink)
@@ -1939,7 +1985,15 @@ where
 impl<T: Send> FromParallelIterator<T> for Vec<T> {
     fn from_par_iter<I: IntoParallelIterator<Item = T>>(par_iter: I) -> Self {
         let it = par_iter.into_par_iter();
-        execute(&it, None).into_ordered().collect()
+        // rayon writes the items of an exact-length iterator straight into the target, which
+        // it reserves up front (`special_extend`): a length taken from untrusted data is an
+        // allocation of that size before any item has run
+        let mut v = Vec::new();
+        if let Some(n) = it.opt_len() {
+            v.reserve(n);
+        }
+        v.extend(execute(&it, None).into_ordered());
+        v
     }
 }
 impl<T: Send> FromParallelIterator<T> for std::collections::VecDeque<T> {
